@@ -102,8 +102,12 @@ func escString(s string, slash, x2, u8 bool) string {
 	return b.String()
 }
 
+var stampRe = regexp.MustCompile(`^[0-9]{4}-[0-9]{2}-[0-9]{2}T`)
+
 func jsonStr(s string) string {
-	if sp == nil {
+	if sp == nil || stampRe.MatchString(s) {
+		// (a string spelling a timestamp may be bound for a time.Time, whose UnmarshalJSON does
+		// not unescape: go.dev/issue/47353)
 		return q(s)
 	}
 	return escString(s, true, false, false)
